@@ -260,7 +260,10 @@ impl Sys {
                     }
                     Next::WaitingNone | Next::AtCapacity => {
                         if infl == 0 && self.canon() == before {
-                            return Err(format!("stuck :: next() = {r:?} changes nothing although no request is in flight (peer states {:?})", self.st));
+                            // signature: what kind of stall (so that one known stall cannot hide another)
+                            let expired = self.st.iter().any(|p| matches!(p, P::Waiting(_)));
+                            let uncontacted = self.st.iter().any(|p| *p == P::Known);
+                            return Err(format!("stuck ({r:?}, timed-out unanswered request: {expired}, un-contacted known peer: {uncontacted}) :: next() changes nothing although no request is in flight (peer states {:?})", self.st));
                         }
                     }
                 }
